@@ -160,3 +160,50 @@ def search(rng, binaries, log):
         if f:
             return (c, f, il)
     return None
+
+
+def extra_checks(tier, rng, binaries, log):
+    """threaded histories on the real map, each checked for linearizability against std::map (Wing & Gong search inside
+    map_mt_driver); a history without a linearization is the replay"""
+    import re
+    import subprocess
+    import vlib
+    res = []
+    quick = tier == "quick"
+    runs = [("map_mt_driver", 4, 4, 3, 1, 30000), ("map_mt_driver", 4, 4, 3, 3, 10000)] if quick else \
+           [("map_mt_driver", 4, 4, 3, 1, 400000), ("map_mt_driver", 6, 4, 4, 1, 100000), ("map_mt_driver", 4, 5, 3, 3, 200000),
+            ("map_mt_driver", 4, 4, 3, 19, 200000), ("map_mt_driver_tsan", 4, 4, 3, 1, 20000), ("map_mt_driver_tsan", 4, 4, 3, 3, 20000)]
+    n = 0
+    hist = 0
+    pairs = 0
+    for (h, threads, ops, keys, buckets, rounds) in runs:
+        try:
+            binary = binaries.get(h) or vlib.build_harness(h, log)
+        except vlib.BuildError as e:
+            res.append((False, "map_mt_driver (%s) does not build against the current tree: %s" % (h, str(e)[-300:]), "build " + h, {}))
+            continue
+        args = ["rounds=%d" % rounds, "threads=%d" % threads, "ops=%d" % ops, "keys=%d" % keys, "buckets=%d" % buckets,
+                "seed=%d" % rng.range(1, 1 << 30)]
+        cmdline = "%s %s" % (h, " ".join(args))
+        try:
+            r = subprocess.run([binary] + args, capture_output=True, text=True, timeout=1200)
+        except subprocess.TimeoutExpired:
+            res.append((False, "map_mt_driver hung (deadlock?): " + cmdline, cmdline, {}))
+            continue
+        m = re.search(r"^RESULT (.*)$", r.stdout, re.M)
+        n += 1
+        if not m:
+            res.append((False, "abort: map_mt_driver crashed: " + (r.stdout + r.stderr)[-600:], cmdline, {}))
+            continue
+        kv = dict(x.split("=", 1) for x in m.group(1).split() if "=" in x)
+        hist += int(kv.get("histories", 0))
+        pairs += int(kv.get("concurrent_pairs", 0))
+        if kv.get("linearizable") != "1":
+            history = r.stdout[m.end():].strip()
+            res.append((False, "a concurrent history of the map has no linearization (threads=%d, buckets=%d):\n%s" % (
+                threads, buckets, history), cmdline + "\n# " + history.replace("\n", "\n# "), {}))
+        if kv.get("tsan_reports", "0") != "0":
+            top = [l for l in r.stderr.splitlines() if "via::" in l][:6]
+            res.append((False, "ThreadSanitizer reported %s data race(s) in the map: %s" % (kv.get("tsan_reports"), top), cmdline, {}))
+    res.append((True, "", "", {"threaded_runs": n, "threaded_histories_checked": hist, "concurrent_operation_pairs": pairs}))
+    return res
